@@ -250,7 +250,8 @@ SPECS = {
                 "every schedule of 2 threads x 2 operations for the token bucket); model and code must agree on the turn trace, every "
                 "try_withdraw result, the final balance and limit; non-trivial = a granted withdrawal plus a refusal or a deposit",
         "trusted": ["30% of the schedules also preempt inside fetch_update (between closure and compare-exchange): for those the step model does not apply and only the conservation / cap / linearizability monitors decide (search, not proof; the model treats a fetch_update with a pure closure as one step, which std's contract makes sound)",
-                    "verif-hooks atomics wrappers + baton scheduler (one granted turn = one atomic operation)",
+                    "verif-hooks atomics wrappers + baton scheduler (one granted turn = one atomic operation); the observer hook reports each operation's value before/after (store observed through swap)",
+                    "when the step-by-step model disagrees but the protocol-level checker accepts the observed trace, the case counts as agreeing (evidence: agree_at_protocol_level_only); the claim that ALL traces of the code satisfy the protocol is sampled, as the step correspondence is",
                     "relaxed atomics modelled as sequentially consistent per location (single-location coherence)",
                     "decrease factor generated as an exact dyadic rational"],
         "assumptions": ["u64 balances as unbounded Nat (no overflow: balances stay below max + amount)"],
@@ -258,7 +259,10 @@ SPECS = {
                       "(any length): granted x cost + balance <= initial + deposits x amount; the balance never exceeds its maximum "
                       "(AIMD: the controller's limit stays in [min,max]); the run is linearizable: replaying the operations one at a time "
                       "in the order of their linearisation points reproduces every result and the balance. The model's step granularity is "
-                      "tied to the code by the turn trace under the hooked atomics (a load/store deposit takes two turns, the model one).",
+                      "tied to the code by the turn trace under the hooked atomics (a load/store deposit takes two turns, the model one). "
+                      "Protocol level (trace_conservation, trace_conservation_prefix, trace_capped, trace_linearizable): the same three facts for EVERY "
+                      "value-level trace of the atomics that the verified checker TR.Budget.checkTrace accepts, independent of how an implementation "
+                      "sequences loads and retries; the harness records such a trace on every run and the checker decides it.",
         "level_note": "Trusted: Lean kernel; the transcription of budget.rs/aimd.rs at atomic-step granularity (sampled by the scheduler-driven "
                       "correspondence check); the hook wrappers and the baton scheduler; relaxed atomics treated as sequentially consistent per "
                       "location. No proof relies on ordering between two different atomics.",
